@@ -333,4 +333,103 @@ theorem floyd_warshall_pre_true (n : Nat) (D : Mat) (es : List (Nat × Nat)) (ws
       (n - 0) 0 _ hedges (fun k D' _ hk h => ⟨body6_pre_true k (by omega) D' h, body6_WF k D' h⟩)
   simp only [p1, p2, p3, hw, and_self]
 
+/-! ## `dijkstra_init`: the adjacency vectors it appends are the model's `adj` -/
+
+open AdaptaVerif.Gen.KeysShortest
+
+theorem aget_aset {α : Type} [Inhabited α] (a : Array α) (i j : Nat) (x : α) (h : i < a.size) :
+    aget (aset a i x) j = if i = j then x else aget a j := by
+  by_cases hij : i = j
+  · subst hij; rw [if_pos rfl]; exact aget_aset_eq a i x h
+  · rw [if_neg hij]; exact aget_aset_ne a i j x hij
+
+/-- one iteration of `dijkstra_init`'s loop on the model edge `(a, b, w)` -/
+def initStep (vs : Array NodeK) (e : Nat × Nat × Rat) : Array NodeK :=
+  let vs2 := aset vs e.1 { (aget vs e.1) with neighbours := (aget vs e.1).neighbours ++ [e.2.1] }
+  let vs3 := aset vs2 e.1 { (aget vs2 e.1) with nweights := (aget vs2 e.1).nweights ++ [some e.2.2] }
+  let vs4 := aset vs3 e.2.1 { (aget vs3 e.2.1) with neighbours := (aget vs3 e.2.1).neighbours ++ [e.1] }
+  aset vs4 e.2.1 { (aget vs4 e.2.1) with nweights := (aget vs4 e.2.1).nweights ++ [some e.2.2] }
+
+theorem initStep_size (vs : Array NodeK) (e : Nat × Nat × Rat) : (initStep vs e).size = vs.size := by
+  simp [initStep, aset_size]
+
+theorem initStep_get (vs : Array NodeK) (e : Nat × Nat × Rat) (ha : e.1 < vs.size) (hb : e.2.1 < vs.size) (u : Nat) :
+    (aget (initStep vs e) u).neighbours =
+      (aget vs u).neighbours ++ ((if e.1 = u then [e.2.1] else []) ++ (if e.2.1 = u then [e.1] else [])) ∧
+    (aget (initStep vs e) u).nweights =
+      (aget vs u).nweights ++ ((if e.1 = u then [some e.2.2] else []) ++ (if e.2.1 = u then [some e.2.2] else [])) := by
+  unfold initStep
+  simp only [aget_aset, aset_size, ha, hb]
+  by_cases h1 : e.1 = u <;> by_cases h2 : e.2.1 = u <;> simp [h1, h2]
+
+
+theorem initFold_size (edges : List (Nat × Nat × Rat)) (vs : Array NodeK) : (edges.foldl initStep vs).size = vs.size := by
+  induction edges generalizing vs with
+  | nil => rfl
+  | cons e es ih => rw [List.foldl_cons, ih, initStep_size]
+
+theorem initFold_get (edges : List (Nat × Nat × Rat)) (vs : Array NodeK)
+    (hv : ∀ e ∈ edges, e.1 < vs.size ∧ e.2.1 < vs.size) (u : Nat) :
+    (aget (edges.foldl initStep vs) u).neighbours = (aget vs u).neighbours ++ (adj edges u).map (·.1) ∧
+    (aget (edges.foldl initStep vs) u).nweights = (aget vs u).nweights ++ (adj edges u).map (fun p => some p.2) := by
+  induction edges generalizing vs with
+  | nil => simp [adj]
+  | cons e es ih =>
+    obtain ⟨a, b, w⟩ := e
+    have hab := hv (a, b, w) (by simp)
+    have ih' := ih (initStep vs (a, b, w)) (fun e he => by rw [initStep_size]; exact hv e (by simp [he]))
+    have hs := initStep_get vs (a, b, w) hab.1 hab.2 u
+    simp only [List.foldl_cons, adj]
+    rw [ih'.1, ih'.2, hs.1, hs.2]
+    constructor
+    · by_cases h1 : a = u <;> by_cases h2 : b = u <;> simp [h1, h2]
+    · by_cases h1 : a = u <;> by_cases h2 : b = u <;> simp [h1, h2]
+
+theorem dijkstra_init_eq (edges : List (Nat × Nat × Rat)) (vs : Array NodeK) :
+    dijkstra_init vs (esOf edges) (wsOf edges) = edges.foldl initStep vs := by
+  unfold dijkstra_init
+  simp only []
+  by_cases hne : edges = []
+  · subst hne; rfl
+  have hlen : (esOf edges).length = edges.length := by simp [esOf]
+  have hpos : 0 < edges.length := List.length_pos_iff.mpr hne
+  rw [Nat.sub_zero, hlen]
+  apply forRange_list
+  intro i hi s
+  have h1 : (esOf edges).getD i default = (edges[i].1, edges[i].2.1) := by
+    simp [esOf, List.getD, hi]
+  have h2 : (wsOf edges).getD i default = some edges[i].2.2 := by
+    simp [wsOf, List.getD, hi]
+  have h3 : (wsOf edges).length > 0 := by simp [wsOf]; exact hpos
+  unfold dijkstra_init_body1 initStep
+  simp only [Nat.zero_add, h1, h2, h3, decide_true, if_true]
+
+theorem dijkstra_init_pre_true (vs : Array NodeK) (es : List (Nat × Nat)) (ws : List Dist)
+    (hw : ws.length = 0 ∨ ws.length = es.length) (hes : ∀ e ∈ es, e.1 < vs.size ∧ e.2 < vs.size) :
+    dijkstra_init_pre vs es ws = true := by
+  unfold dijkstra_init_pre
+  simp only [Bool.and_true, Bool.and_eq_true, Bool.or_eq_true, decide_eq_true_eq]
+  refine ⟨hw, ?_⟩
+  refine forRangePre_of_inv (fun _ (vs' : Array NodeK) => vs'.size = vs.size) _ _ _ _ _ rfl ?_
+  intro i vs' _ hi hsz
+  have hi' : i < es.length := by omega
+  have hmem : es.getD i default ∈ es := by
+    simp only [List.getD, List.getElem?_eq_getElem hi', Option.getD_some]; exact List.getElem_mem hi'
+  have hu := (hes _ hmem).1
+  have hv := (hes _ hmem).2
+  have hwi : ws.length > 0 → i < ws.length := by
+    intro h; rcases hw with h0 | h0
+    · omega
+    · rw [h0]; exact hi'
+  have hA : (if decide (ws.length > 0) = true then decide (i < ws.length) else true) = true := by
+    by_cases hp : ws.length > 0
+    · simp [hp, hwi hp]
+    · simp [hp]
+  constructor
+  · unfold dijkstra_init_body1_pre
+    simp only [aset_size, hsz, hi', hu, hv, hA, decide_true, Bool.and_self]
+  · unfold dijkstra_init_body1
+    simp only [aset_size, hsz]
+
+
 end AdaptaVerif.Lemmas.ShortestPathsBridge
